@@ -1,11 +1,11 @@
 package main
 
 import (
-	"os"
 	"fmt"
 	"go/constant"
 	"go/token"
 	"go/types"
+	"os"
 	"strings"
 
 	"golang.org/x/tools/go/ssa"
@@ -14,7 +14,7 @@ import (
 func init() { register("C12", true, runC12) }
 
 func runC12(c *Check) {
-	c.Explanation = "Decides the frame clause of C12 for every profile, mode and plug-in behaviour: in the call tree of (*Symbolizer).Symbolize (local, remote, demangle) no reachable pprof function can write any field of the profile data model other than Function.*, Line.*, Location.Line, Location.IsFolded, Mapping.Has* and Profile.Function (R1); Has* flags are only ever set to true and an already-symbolized mapping is skipped unless force (R2); every id given to a new function is derived from existing ids (max+1), never from the length of a possibly sparse table (R3); demangling never stores an empty name over a non-empty one structurally (R4); every pre-sized line is assigned (R5); a location's line list is only ever replaced by a list with at least one entry, so an empty answer erases nothing (R6). Also: force is turned on only by the options that ask for it (R7). Not decided: that the attached names are the right ones, CheckValid after symbolization, plug-in internals."
+	c.Explanation = "Decides the frame clause of C12 for every profile, mode and plug-in behaviour: in the call tree of (*Symbolizer).Symbolize (local, remote, demangle) no reachable pprof function can write any field of the profile data model other than Function.*, Line.*, Location.Line, Location.IsFolded, Mapping.Has* and Profile.Function (R1); Has* flags are only ever set to true and an already-symbolized mapping is skipped unless force (R2); every id given to a new function is derived from existing ids (max+1), never from the length of a possibly sparse table (R3); demangling never stores an empty name over a non-empty one structurally (R4); every pre-sized line is assigned (R5); a location's line list is only ever replaced by a list with at least one entry, so an empty answer erases nothing (R6). Also: force is turned on only by the options that ask for it (R7). Round-I additions: the result of the function interner is what the line refers to. Not decided: that the attached names are the right ones, CheckValid after symbolization, plug-in internals."
 	p := c.P
 	m := newModAnalyzer(p)
 	roots := []*ssa.Function{
